@@ -827,6 +827,30 @@ static void key_from_rec(const struct spki_record *r, struct mkey *k)
 			k->src = (uint8_t)i;
 }
 
+/* mirror of a second table (the destination of a copy): count of keys its callbacks say it holds */
+static struct spki_table *D2_T;
+static struct mkey D2M[MAXK];
+static int D2MN;
+
+static void d2_cb(struct spki_table *t, const struct spki_record rec, const bool added)
+{
+	struct mkey k;
+
+	if (t != D2_T)
+		return;
+	key_from_rec(&rec, &k);
+	if (added) {
+		if (D2MN < MAXK)
+			D2M[D2MN++] = k;
+	} else {
+		for (int i = 0; i < D2MN; i++)
+			if (mkey_eq(&D2M[i], &k)) {
+				D2M[i] = D2M[--D2MN];
+				break;
+			}
+	}
+}
+
 static void spki_cb(struct spki_table *t, const struct spki_record rec, const bool added)
 {
 	struct mkey k;
@@ -1168,7 +1192,9 @@ static void run_spki_case(struct rng *r, long c)
 			static struct mkey pre[MAXK], got2[MAXK];
 			int npre = 0, ng2 = 0, s2 = (int)rndn(r, 3);
 
-			spki_table_init(&d2, NULL);
+			D2_T = &d2;
+			D2MN = 0;
+			spki_table_init(&d2, i % 74 == 36 ? d2_cb : NULL);
 			for (int j = 0; j < KN && npre < 6; j++) {
 				if (K[j].src != s2 && rndp(r, 1, 3)) {
 					struct spki_record pr;
@@ -1204,6 +1230,26 @@ static void run_spki_case(struct rng *r, long c)
 				}
 			}
 			CNT("c10/copies_into_nonempty_table");
+			if (d2.update_fp || i % 74 == 36) {
+				/* the destination's own callbacks: whatever the (possibly refused) copy put there was announced, and the
+				 * table goes on announcing afterwards */
+				struct mkey extra;
+				struct spki_record er;
+				int before;
+
+				CNT("c10/copy_destinations_with_callbacks");
+				qsort(D2M, (size_t)D2MN, sizeof(D2M[0]), mkey_cmp);
+				if (D2MN != ng2 || memcmp(D2M, got2, (size_t)ng2 * sizeof(got2[0])))
+					viol("C10", "C10:copy-destination-callbacks-differ", "after copy_except_socket into a table with %d keys the destination holds %d keys, its callbacks announced %d",
+					     npre, ng2, D2MN);
+				gen_key(r, &extra, 1000000);
+				extra.spki[7] = 0xD2;
+				key_to_rec(&extra, &er);
+				before = D2MN;
+				if (spki_table_add_entry(&d2, &er) == SPKI_SUCCESS && D2MN != before + 1)
+					viol("C10", "C10:copy-destination-silent-afterwards", "an add to the destination of an earlier copy_except_socket was not announced to its callback");
+			}
+			D2_T = NULL;
 			spki_table_free(&d2);
 		}
 		cntf(1, "c10/op/%s", opn);
